@@ -57,6 +57,9 @@ def bitPut (bs : List Bool) (i : Nat) : Option (Bool × List Bool) :=
   match bs[i]? with
   | none => none
   | some b => some (b, bs.set i true)
+/-- `QuotientFilter::incr` / `decr`: the wrap-around successor / predecessor of a slot position -/
+def ringIncr (len pos : Nat) : Nat := if pos = len - 1 then 0 else pos + 1
+def ringDecr (len pos : Nat) : Nat := if pos = 0 then len - 1 else pos - 1
 /-- `C::checked_add` against the maximum of the counter type -/
 def checkedAddMax (cmax a b : Nat) : Option Nat := if a + b ≤ cmax then some (a + b) else none
 
@@ -75,6 +78,21 @@ def Flow.bind {ρ σ τ : Type} (x : Flow ρ σ) (f : σ → Flow ρ τ) : Flow 
   | .ret r => .ret r
   | .cont s => f s
   | .panic => .panic
+
+/-- one iteration of a `loop { … }` body: it returned, it panicked, it hit `break` (with the state), or it
+reached the end of the body (with the state) -/
+inductive Iter (ρ σ : Type) where
+  | ret (r : ρ)
+  | panic
+  | brk (s : σ)
+  | next (s : σ)
+
+/-- scan result of the quotient filter (`struct ScanResult`) -/
+structure QfScan where
+  present : Bool
+  position : Nat
+  start_of_run : Option Nat
+  deriving Repr, DecidableEq
 
 @[simp] theorem Flow.bind_ret {ρ σ τ : Type} (r : ρ) (f : σ → Flow ρ τ) : (Flow.ret r : Flow ρ σ).bind f = .ret r := rfl
 @[simp] theorem Flow.bind_cont {ρ σ τ : Type} (s : σ) (f : σ → Flow ρ τ) : (Flow.cont s : Flow ρ σ).bind f = f s := rfl
